@@ -128,3 +128,29 @@ Theorem every_reachable_state_has_distinct_keys : forall ops,
   FrameInv.fwf (fold_left ContInv.apply_api ops Api.empty_state).
 Proof. exact FrameInv.reachable_states_have_distinct_keys. Qed.
 Print Assumptions every_reachable_state_has_distinct_keys.
+
+(** comparisons and arithmetic evaluate every operand, left to right, before they look at any value *)
+From WalModel.proofs Require EagerOps.
+Theorem comparisons_and_arithmetic_start_with_all_operands : forall ev neg args,
+  EagerOps.eager ev (op_eq ev neg args) args /\ EagerOps.eager ev (op_add ev args) args /\ EagerOps.eager ev (op_sub ev args) args /\
+  EagerOps.eager ev (op_mul ev args) args /\ EagerOps.eager ev (op_list ev args) args.
+Proof.
+  intros ev neg args. repeat split;
+    [apply EagerOps.eq_is_eager|apply EagerOps.add_is_eager|apply EagerOps.sub_is_eager|apply EagerOps.mul_is_eager|apply EagerOps.list_is_eager].
+Qed.
+Print Assumptions comparisons_and_arithmetic_start_with_all_operands.
+Theorem eager_means : forall ev m args, EagerOps.eager ev m args <-> exists k, m = bind (eval_args ev args) k.
+Proof. intros. reflexivity. Qed.
+Print Assumptions eager_means.
+Theorem a_failing_operand_fails_the_form : forall ev m args e st st',
+  EagerOps.eager ev m args -> eval_args ev args st = Er e st' -> m st = Er e st'.
+Proof. exact EagerOps.eager_fails. Qed.
+Print Assumptions a_failing_operand_fails_the_form.
+Theorem operands_are_evaluated_one_by_one_in_order : forall ev a r st,
+  eval_args ev (a :: r) st =
+  match ev a st with
+  | Ok v st1 => match eval_args ev r st1 with Ok vs st2 => Ok (v :: vs) st2 | Er e s => Er e s | Unm w => Unm w | Fuel => Fuel end
+  | Er e s => Er e s | Unm w => Unm w | Fuel => Fuel
+  end.
+Proof. exact EagerOps.eval_args_cons. Qed.
+Print Assumptions operands_are_evaluated_one_by_one_in_order.
